@@ -313,6 +313,10 @@ type nodeContext struct {
 	replaceIDs         []replaceID
 	flatReplaceIDs     []replaceID // including all parents, and sorted by 'to' in descending order
 	minFlatReplaceIDTo defID       // minimum 'to' value in flatReplaceIDs, 0 if empty
+
+	// containsDefIDDepth is the current recursion depth of
+	// [nodeContext.containsDefIDRec] through replaceIDs.
+	containsDefIDDepth int
 	conjunctInfo       []conjunctInfo
 	reqSets            reqSets
 
